@@ -819,3 +819,43 @@ def alias(progs):
                                'element of the same vector the value read is a moved-from or different element' % nm,
                                where=f['pname'], unit=prog.uname))
     return rr
+
+
+# ====================================================================================== RETHROW
+class _ThrowOnly(Client):
+    def is_event(self, n):
+        return n.get('k') == 'throw'
+
+    def event(self, n, s):
+        return [('x', s)]
+
+    def enter_handler(self, try_node, handler, state, thrower):
+        return state
+
+
+def rethrow(progs):
+    """Every handler in amc is a roll-back: it must end by re-throwing on every path.  A handler that can complete normally (or
+    return) swallows the exception the property expects to reach the caller, and the operation carries on in a half-done state."""
+    rr = RuleResult('RETHROW', 'every catch handler of amc leaves by (re)throwing on every path: no exception of an element operation or of the '
+                               'allocator is swallowed')
+    for prog in progs:
+        for f in prog.amc_functions():
+            body = f.get('body')
+            if body is None:
+                continue
+            i = 0
+            for n in walk(body):
+                if n.get('k') != 'try':
+                    continue
+                for h in n.get('handlers', []):
+                    i += 1
+                    eng = Engine(_ThrowOnly())
+                    o = eng.run(h.get('body'), frozenset())
+                    swallows = bool(o.normal) or bool(o.returns) or bool(getattr(o, 'breaks', None)) or bool(getattr(o, 'continues', None))
+                    rr.instance('%s|handler%d' % (f['key'], i), {'function': f['pname'][:150], 'unit': prog.uname, 'catches': 'all' if h.get('all') else h.get('t'),
+                                                                  'always_rethrows': not swallows})
+                    if swallows:
+                        rr.add(Finding('RETHROW', '%s|handler%d' % (f['key'], i), prog.site(f, h.get('body')) if isinstance(h.get('body'), dict) and h['body'].get('l') else f['loc'],
+                                       'a catch handler can complete without re-throwing: the exception is swallowed and the operation continues although '
+                                       'its step failed', where=f['pname'], unit=prog.uname))
+    return rr
